@@ -1348,6 +1348,37 @@ var scripts = []func(r *rec, s *session, u *universe){
 		s.opRemove(r, f)
 		s.opWatchList(r)
 	},
+	// the same entry name under two watches whose (relative) paths are such that one is a string suffix of the
+	// other — "sub" and "d0/sub", "./sub/" spelled otherwise — in both orders, in one read and across reads: a name
+	// is the path of the watch the record names, a separator and the entry, whatever was reported before
+	func(r *rec, s *session, u *universe) {
+		os.Mkdir(filepath.Join(u.root, "sub"), 0o755)
+		s.noteFS(r, "mkdir sub")
+		s.opAdd(r, "sub", 0x1f, false)
+		s.opAdd(r, "d0/sub", 0x1f, false)
+		w1, w2 := s.wdFor("sub"), s.wdFor("d0/sub")
+		s.rawRecs(r, rawRec{wd: w2, mask: inCreate, name: kernelPad("main.go")}, rawRec{wd: w1, mask: inCreate, name: kernelPad("main.go")})
+		s.rawRecs(r, rawRec{wd: w1, mask: inModify, name: kernelPad("main.go")}, rawRec{wd: w2, mask: inModify, name: kernelPad("main.go")})
+		s.opRawMulti(r,
+			recsBytes(rawRec{wd: w2, mask: inAttrib, name: kernelPad("x")}),
+			recsBytes(rawRec{wd: w1, mask: inAttrib, name: kernelPad("x")}),
+			recsBytes(rawRec{wd: w2, mask: inAttrib, name: kernelPad("x")}))
+		s.opRemove(r, "./sub/")
+		s.rawRecs(r, rawRec{wd: w1, mask: inIgnored}, rawRec{wd: w2, mask: inDelete, name: kernelPad("main.go")})
+		s.opWatchList(r)
+	},
+	// the working directory watched as "." (also spelled "./" and ""): entries are "./name" — filepath.Dir(".") is
+	// "." itself, so the "is the parent watched too?" test of the IN_DELETE_SELF branch looks the watch up under
+	// its own name: the removal of the directory is still reported, once
+	func(r *rec, s *session, u *universe) {
+		s.opAdd(r, ".", 0x1f, false)
+		s.opAdd(r, "./", 0x1f, false)
+		wd := s.wdFor(".")
+		s.rawRecs(r, rawRec{wd: wd, mask: inCreate, name: kernelPad("file")}, rawRec{wd: wd, mask: inDelete, name: kernelPad("file")})
+		s.opWatchList(r)
+		s.rawRecs(r, rawRec{wd: wd, mask: inDeleteSelf}, rawRec{wd: wd, mask: inIgnored})
+		s.opWatchList(r)
+	},
 	// stale read buffer: two or three reads with the same layout (same watches, same offsets, same padded
 	// name lengths) and different names, with no barrier read in between. Anything that remembers names
 	// by reference to the read buffer (a cache, a slice kept across reads) answers with an earlier name.
